@@ -9,8 +9,8 @@ PROPS = {
     "C14": dict(
         modules=["Drpc.Props.C14", "Drpc.Tie.C14"],
         suites=["http"],
-        rule="http suite: (unescape) ALL header strings over {%,=,0,9,a,f,A,F,g,space,0xff} to length 4 (5 in thorough) and over a "
-             "7-byte alphabet one longer, random strings to 200 bytes incl. 'mostly %' and valid-escape-heavy ones; (context) all "
+        rule="http suite: (unescape) ALL header strings over {%,=,0,9,a,f,A,F,g,space,0xff} to length 5 and over a "
+             "7-byte alphabet to length 6 (7 in thorough), random strings to 200 bytes incl. 'mostly %' and valid-escape-heavy ones; (context) all "
              "single entries to length 3 (4) and random 1-4 entry lists built with three escapers, duplicates, key-only and "
              "malformed entries; (getcode) ALL error chains of <= 3 nodes over {Unwrap, Cause, Code()uint64 12/0, Code()string, "
              "wrong-signature Code} x {leaf, Unwrap()=nil}, wrapper depths {98,99,100,101,150} in front of a code, random chains; "
@@ -231,5 +231,72 @@ PROPS = {
                      "connection is dead; header_n_excludes_header covers failing writes too)",
                      "a client that sends fewer than prefixLen bytes and never closes keeps its routeConn goroutine in "
                      "ReadFull (the code has no timeout there; reported as pending, not as delivered or closed)"],
+    ),
+    "C15": dict(
+        modules=["Drpc.Props.C15", "Drpc.Tie.C15"],
+        suites=["pool"],
+        rule="pool suite, the real drpcpool.Pool with fake connections inside a testing/synctest bubble (fake clock; a fake "
+             "connection's Close parks twice when called from an expiry callback, so 'timer fired', 'callback closed the "
+             "connection' and 'callback ran removeEntry' are three separately scheduled events): a corpus of the scenarios of "
+             "the three repaired defects and their neighbours; ALL sequences of length <= 4 (5 in thorough) over a 10-symbol "
+             "alphabet (Put to 2 keys, Take from 2 keys, clock to the next deadline, callback-close, callback-remove, Close, "
+             "peer closes a cached connection, block/unblock) for 5 capacity configurations; random scenarios of <= 30 events "
+             "over <= 3 keys and <= 8 connections, Capacity and KeyCapacity drawn from {-1,0,1,2,3}, expiration on/off, callback "
+             "phases interleaved at every position, with a caller that follows the Take/Put protocol or (1 scenario in 5) puts "
+             "connections it does not hold. After every event the observation (result, both list walks and both stored counts "
+             "via VerifWalk, who closed which connection how often) is compared with the list-level model and the "
+             "pointer-level model. Non-trivial: a timer phase took effect between two API calls. Distinct by hash of the request",
+        trusted=COMMON_TRUST + [
+            "Put/Take/Close and the callback's removeEntry are atomic (they hold p.mu from entry to exit); time.Timer: Stop() "
+            "returns true exactly when the timer has neither fired nor been stopped, and the callback runs once after firing",
+            "the theorems are about the list-level model (lists as sequences of entry ids + separately stored counts); the "
+            "pointer-level next/prev/head/tail version (Drpc/PoolHeap.lean) is tied to it and to the code by the "
+            "correspondence runs only",
+            "testing/synctest's fake clock fires time.AfterFunc timers in deadline order (the theorems allow any order)",
+        ],
+        assumptions=["connection-level statements (a connection held by a caller is not closed by the pool) are checked by direct "
+                     "oracles for callers that only Put connections they hold (what poolConn does); the theorems are per entry, "
+                     "i.e. per Put, and hold for every caller",
+                     "a fake connection's Closed() channel stays closed once closed"],
+    ),
+    "C02": dict(
+        modules=['Drpc.Props.C02', 'Drpc.Tie.Manager'],
+        suites=['e2e'],
+        rule="e2e suite, families delivery+probe: sequences of 1-4 RPCs of all shapes on one connection (real drpcconn.Conn and drpcserver.ServeOne over the director's pipe, 8 configurations, flowing or randomly chunked transport), every payload tagged with (rpc, direction, sequence, length, crc) so that a message delivered to another RPC is recognised; earlier RPCs ended by close or cancel at various points (probe family) before the next begins. Counted: scenarios (#STATS distribution); oracles C02:isolation",
+        trusted=COMMON_TRUST + ["Go runtime (goroutines, sync, channels) trusted; the two-endpoint behaviour is explored, not modelled: "
+                                "the Lean theorems cover the stream state machine, the wire codec, the reader and the dispatch decision",
+                                "quiescence detection by stop-the-world goroutine snapshots; transport = the director's in-memory pipe "
+                                "(bytes in order, unmodified, arbitrary pieces and delays; Close/failure make pending and later calls fail)"],
+        assumptions=['the scripted handler and the client read payloads only through the public API'],
+    ),
+    "C04": dict(
+        modules=['Drpc.Props.C04', 'Drpc.Tie.Manager'],
+        suites=['e2e'],
+        rule="e2e suite, family cancel: a streaming RPC (5 handler programs) with a random set of 1-3 operations in flight (receive, small/large send, second send, half-close, close) on a stalled or flowing transport, both cancel modes; the context is cancelled and the process run to quiescence: pending calls, error identities, later calls, a probe RPC on the connection, and the handler's context are judged. Known findings are matched by signature",
+        trusted=COMMON_TRUST + ["Go runtime (goroutines, sync, channels) trusted; the two-endpoint behaviour is explored, not modelled: "
+                                "the Lean theorems cover the stream state machine, the wire codec, the reader and the dispatch decision",
+                                "quiescence detection by stop-the-world goroutine snapshots; transport = the director's in-memory pipe "
+                                "(bytes in order, unmodified, arbitrary pieces and delays; Close/failure make pending and later calls fail)"],
+        assumptions=['judged at quiescence with no transport action pending'],
+    ),
+    "C06": dict(
+        modules=['Drpc.Props.C06', 'Drpc.Tie.Manager'],
+        suites=['e2e'],
+        rule='e2e suite, family probe: 1-2 streaming RPCs over the grid {11 handler programs (return without draining, error without draining, read one, read all, send without reading, wait for cancel, close-send then error, large response ...)} x {0,1,3 client sends} x {half-close or not} x {0,1,5 receives} x {close, cancel} x {soft, hard cancel}, then a probe unary RPC that must complete at quiescence unless the connection reports itself closed',
+        trusted=COMMON_TRUST + ["Go runtime (goroutines, sync, channels) trusted; the two-endpoint behaviour is explored, not modelled: "
+                                "the Lean theorems cover the stream state machine, the wire codec, the reader and the dispatch decision",
+                                "quiescence detection by stop-the-world goroutine snapshots; transport = the director's in-memory pipe "
+                                "(bytes in order, unmodified, arbitrary pieces and delays; Close/failure make pending and later calls fail)"],
+        assumptions=['the transport keeps moving bytes (flow mode) while the probe runs'],
+    ),
+    "C12": dict(
+        modules=['Drpc.Props.C12', 'Drpc.Tie.Manager'],
+        suites=['e2e'],
+        rule='e2e suite, families close+fault: random workloads of 1-2 RPCs driven over a manually stepped transport; at transport step k (every k in the thorough tier, a sample in quick) Conn.Close / server context cancellation / an external transport break is issued; after the transport lets go: Close has returned, the transport end was closed exactly once by the library, every call has returned, no goroutine with a storj.io/drpc frame is left',
+        trusted=COMMON_TRUST + ["Go runtime (goroutines, sync, channels) trusted; the two-endpoint behaviour is explored, not modelled: "
+                                "the Lean theorems cover the stream state machine, the wire codec, the reader and the dispatch decision",
+                                "quiescence detection by stop-the-world goroutine snapshots; transport = the director's in-memory pipe "
+                                "(bytes in order, unmodified, arbitrary pieces and delays; Close/failure make pending and later calls fail)"],
+        assumptions=['goroutine census by runtime.Stack at quiescence'],
     ),
 }
